@@ -244,6 +244,26 @@ pub fn run(ctx: &mut Ctx) {
                         judge_single(ctx, dn, d, &a, if l == 5 { &[1, 2, 3] } else { &[] });
                     }
                 }
+                // header-field coincidences: the length field EQUAL to the type field (and its neighbours, its byte-swapped
+                // value and its low / high byte): two independent fields that a fill pattern or a shifted read makes equal
+                {
+                    let tl = t as usize;
+                    let sw = t.swap_bytes() as usize;
+                    let repeated = (t >> 8) == (t & 0xff);
+                    for (k, l) in [tl, tl.wrapping_sub(1), tl + 1, sw, tl & 0xff, tl >> 8].into_iter().enumerate() {
+                        // the neighbours only for types made of one repeated byte (all GREASE values are) and every 64th type
+                        if l > 65535 || l == 0 || (k > 0 && !repeated && t % 64 != 0) {
+                            continue;
+                        }
+                        let fill = (t >> 8) as u8;
+                        let data = if l % 2 == 0 { vec![fill; l] } else { rng.bytes(l) };
+                        let a = if is_grease(t) { AExt::Grease(t, data) } else { AExt::Unknown(t, data) };
+                        ctx.count("types.length-equals-type");
+                        for (dn, d) in DISPATCHERS {
+                            judge_single(ctx, dn, d, &a, &[]);
+                        }
+                    }
+                }
                 // an unknown type carrying data that is well-formed content of a KNOWN type (a list of 16-bit
                 // values, a name list, ...): still Unknown / Grease with the data verbatim, whatever it looks like
                 let k = ((t as usize).wrapping_mul(7) + (t as usize >> 8)) % gen::EXT_GENERATORS;
